@@ -333,7 +333,8 @@ def r4(ctx):
         if isinstance(e, ast.BoolOp):
             return [x for v in e.values for x in bare_operands(v)]
         return [e] if isinstance(e, (ast.Name, ast.Attribute, ast.Subscript)) else []
-    truthy = [(t_, x) for t_ in walk_no_nested(a) if isinstance(t_, (ast.If, ast.IfExp)) for x in bare_operands(t_.test)]
+    fields = {x.arg for x in a.args.args[1:4]} | {'self.sequence', 'self.plus', 'self.qualities'}
+    truthy = [(t_, x) for t_ in walk_no_nested(a) if isinstance(t_, (ast.If, ast.IfExp)) for x in bare_operands(t_.test) if src(x) in fields]
     ctx.emit('C01-R4', not truthy, BASEDEMUX, truthy[0][0] if truthy else a, 'asFastq tests its fields with `is None` only (an empty string is serialised, not refused)' if not truthy else
              f'asFastq tests `{src(truthy[0][1])}` for truth: an empty sequence / quality string raises while the mate written before it stays in the output',
              key='asFastq-refuses-only-None', what='asFastq refuses records with an empty (not missing) field')
